@@ -11,12 +11,16 @@ pub struct ParResult<T> { pub locals: Vec<T>, pub done: u64, pub total: u64, pub
 /// Calls f(i, &mut local) for every i in 0..total (blocks of `chunk`, visited in an order rotated by `seed`).
 /// When the deadline passes no new block is started: `capped` is then true and `done` < total.
 pub fn par_run<T: Send + Default, F: Fn(u64, &mut T) + Sync>(total: u64, chunk: u64, deadline: Option<Instant>, seed: u64, f: F) -> ParResult<T> {
+    par_run_n(total, chunk, deadline, seed, nthreads(), f)
+}
+/// the same with a given number of harness threads
+pub fn par_run_n<T: Send + Default, F: Fn(u64, &mut T) + Sync>(total: u64, chunk: u64, deadline: Option<Instant>, seed: u64, n: usize, f: F) -> ParResult<T> {
     let nblocks = (total + chunk - 1) / chunk.max(1);
     let next = AtomicU64::new(0);
     let done = AtomicU64::new(0);
     let capped = AtomicBool::new(false);
     let rot = if nblocks > 0 { seed.wrapping_mul(0x9E3779B97F4A7C15) % nblocks } else { 0 };
-    let n = nthreads();
+    let n = n.max(1);
     let locals: Vec<T> = std::thread::scope(|s| {
         let ncores = std::thread::available_parallelism().map(|n| n.get()).unwrap_or(1);
         let hs: Vec<_> = (0..n).map(|ti| {
